@@ -101,7 +101,8 @@ def convert(model: nn.Module, input_example: Any, conversion_type: str,
     add_node_properties(mod)
     if conversion_type in ('autoimport', 'export'):
         # dictionary of shared feature maskers. Used only in 'autoimport' mode.
-        sm_dict = {} if conversion_type != 'autoimport' else build_shared_features_map(mod)
+        sm_dict = {} if conversion_type != 'autoimport' else \
+            build_shared_features_map(mod, exclude_names, exclude_types)
         convert_layers(mod, conversion_type, sm_dict, exclude_names, exclude_types, fold_bn)
     if conversion_type in ('autoimport', 'import'):
         fuse_pit_modules(mod, fold_bn)
@@ -156,13 +157,20 @@ def convert_layers(mod: fx.GraphModule,
     return
 
 
-def build_shared_features_map(mod: fx.GraphModule) -> Dict[fx.Node, PITFeaturesMasker]:
+def build_shared_features_map(mod: fx.GraphModule,
+                              exclude_names: Iterable[str] = (),
+                              exclude_types: Iterable[Type[nn.Module]] = ()
+                              ) -> Dict[fx.Node, PITFeaturesMasker]:
     """Create a map from fx.Node instances to instances of PITFeaturesMasker to be used by PIT
     to optimize the number of features of that node. Handles the sharing of masks among
     multiple nodes.
 
     :param mod: the fx-converted GraphModule
     :type mod: fx.GraphModule
+    :param exclude_names: the names of `model` submodules that are ignored by the NAS
+    :type exclude_names: Iterable[str], optional
+    :param exclude_types: the types of `model` submodules that are ignored by the NAS
+    :type exclude_types: Iterable[Type[nn.Module]], optional
     :return: a map (node -> feature masker)
     :rtype: Dict[fx.Node, PITFeaturesMasker]
     """
@@ -192,6 +200,15 @@ def build_shared_features_map(mod: fx.GraphModule) -> Dict[fx.Node, PITFeaturesM
             nodes_to_remove.append(n)
     for n in nodes_to_remove:
         sharing_graph.remove_node(n)
+
+    # a layer excluded from the NAS keeps its size, so the nodes that share its output features and
+    # the producers of its input features must keep theirs: treat them as output-connected
+    for n in mod.graph.nodes:
+        if is_layer(n, mod, tuple(pit_layer_map.keys())) and \
+                exclude(n, mod, exclude_names, exclude_types):
+            n.meta['output_connected'] = True
+            for i in n.all_input_nodes:
+                i.meta['output_connected'] = True
 
     # the operands of a features concatenation whose result reaches an output unchanged are tied to
     # the output width as well: tag them as output-connected (repeat for nested concatenations)
